@@ -90,10 +90,12 @@ pub fn decode(src: &mut Source) -> Box<dyn Case> {
             }
             _ => {
                 let lang = gen_lang(src);
-                let nrec = match src.weighted(&[6, 2, 1]) {
+                let nrec = match src.weighted(&[60, 20, 10, 1]) {
                     0 => src.range(1, 6),
                     1 => src.range(7, 40),
-                    _ => src.range(100, 700),
+                    2 => src.range(100, 700),
+                    // record counts around a block boundary of a thousand
+                    _ => *src.pick(&[1023usize, 1024, 1025, 1026, 2048, 2049]),
                 };
                 let vocab: Vec<String> = (0..src.range(2, 6)).map(|_| gen_w(src, lang)).collect();
                 let titles: Vec<String> = (0..nrec)
@@ -104,6 +106,7 @@ pub fn decode(src: &mut Source) -> Box<dyn Case> {
                     .collect();
                 let limit = *src.pick(&[10usize, 1, 3, 65, 0]);
                 let nq = src.range(1, 4);
+                let last_word = titles.last().map(|t| t.split(|c: char| !c.is_alphanumeric()).next().unwrap_or("").to_string()).unwrap_or_default();
                 let queries = (0..nq)
                     .map(|_| {
                         let w = src.pick(&vocab).clone();
@@ -116,6 +119,10 @@ pub fn decode(src: &mut Source) -> Box<dyn Case> {
                         if src.chance(1, 6) {
                             // run two vocabulary words together / split one
                             q = format!("{}{}", w, src.pick(&vocab));
+                        }
+                        if src.chance(1, 5) && !last_word.is_empty() {
+                            // aimed at the record added last
+                            q = last_word.clone();
                         }
                         q
                     })
